@@ -30,7 +30,7 @@ CHECKS.update({
    ref="6 C16", note=TB_E2),
 })
 CHECKS.update({
- "C14": dict(engine=E2, technique="bounded-exhaustive enumeration of well-formed CDR file structures (all single + pairwise deviations, all 64 release-identifier combinations); Decoding(Encoding(f)) == f on the real codec",
+ "C14": dict(engine=E2, technique="bounded-exhaustive enumeration of well-formed CDR file structures (all single + pairwise deviations from a homogeneous and a heterogeneous base structure, all 64 release-identifier combinations); Decoding(Encoding(f)) == f on the real codec",
    text="Every well-formed file structure within 2 (thorough: 3) deviations of the base structure is written with CDRFile.Encoding and read back with CDRFile.Decoding; the result must equal the input; a subset is repeated through the real file system.",
    ref="6 C14/C15", note=TB_E2),
  "C15": dict(engine=E2, technique="bounded-exhaustive enumeration of well-formed CDR file structures; bytes parsed by an independent TS 32.297 clause 6.1 reader",
@@ -49,7 +49,7 @@ CHECKS.update({
  "C11": dict(engine=E1, technique="bounded-exhaustive enumeration of request bodies/path parameters (single + pairwise deviations) x explicit-state exploration of request / follow-up histories through the real router; wedge = driver thread blocked forever in virtual time",
    text="Every request body within the deviation bound of the well-formed create/update/release body and every recharging path-parameter shape is sent through the real gin router after a create (and after create+update) and followed by a well-formed update and create for the same subscriber; no 5xx, no escaping panic, 4xx carry a problem document, and the follow-up must complete (a held subscriber lock shows as a driver thread blocked forever, decided by the scheduler without wall-clock timeouts).",
    ref="6 C11", note=TB_E1),
- "C12": dict(engine=E1, technique="explicit-state BFS over request histories through the real router; contract oracle per request; before/after state comparison for rejected requests",
+ "C12": dict(engine=E1, technique="explicit-state BFS over request histories through the real router (incl. one-time events and consumers answering the notification with 400/404/500/200); contract oracle per request; before/after state comparison for rejected requests",
    text="All histories up to the depth bound over two subscribers (up to two live sessions each, re-attach with another notification URI) mixing valid requests with requests naming an unknown subscriber or an unknown / stale / foreign session reference; status, Location, echoes, body and notifications are checked per request, and every rejected request must leave balances, reservations, records, files and database writes unchanged.",
    ref="6 C12", note=TB_E1),
 })
@@ -59,12 +59,12 @@ CHECKS.update({
    ref="6 C10", note=TB_E1),
 })
 CHECKS.update({
- "C13": dict(engine=E2, technique="exhaustive enumeration of service lists x registered routes x token kinds against the real router, with a state-comparison oracle for 'no processing'",
+ "C13": dict(engine=E2, technique="exhaustive enumeration of service lists x registered routes x token kinds against the real router, with a state-comparison oracle for 'no processing'; plus stateless preemption-bounded schedule exploration (statement-level scheduling points in the authorisation code) of an authenticated and an unauthenticated request in flight together",
    text="For each of the 16 ordered lists of distinct service names the router is built by the real NewServer; every (method, path) reported by Engine.Routes() is probed with 11 kinds of missing/malformed/wrongly signed tokens (twice each) against a world holding a live session: the answer must be 401 and balances, reservations, rating modes, records, database reads/writes, Diameter dials and notifications must be unchanged; a control probe with a valid NRF-signed token must not be 401.",
    ref="6 C13", note=TB_E1),
 })
 CHECKS.update({
- "C18": dict(engine=E1, technique="explicit-state BFS over request histories with an exact resource vector at quiescence, plus long deterministic runs in virtual time",
+ "C18": dict(engine=E1, technique="explicit-state BFS over request histories with an exact resource vector at quiescence, plus long deterministic runs in virtual time, plus delay-bounded schedule exploration of slow peers (3 s / 6 s delays on every Diameter message delivery)",
    text="All histories of updates/recharges over two subscribers up to the depth bound: open and half-closed (modelled) Diameter connections and goroutines of the world are counted exactly before and after every repeated request; long runs of N = 10/100 (thorough 1000) back-to-back and spaced updates must never exceed the resources the first three requests per subscriber needed, also after 60 s of virtual quiet.",
    ref="6 C18", note=TB_E1),
 })
